@@ -13,6 +13,16 @@
 (*                       encoding): one flag per conjunct of Accept in     *)
 (*                       SignedNote.tla, and the tuple it verified         *)
 (*                                                                         *)
+(*   runs                the same decision by verifier VALUES with         *)
+(*                       different histories (a verifier may carry state): *)
+(*                       "fresh" (constructed for this check), "warm" (it  *)
+(*                       has just verified the genuine checkpoint the note *)
+(*                       was derived from; primed = that opened; after_ok  *)
+(*                       = the genuine checkpoint still opens afterwards), *)
+(*                       "shared" (one long-lived value that is handed     *)
+(*                       every note of the run).  The independent verifier *)
+(*                       is stateless, and the formulas hold for every run *)
+(*                                                                         *)
 (* Record kinds: case (a deviation set of the lattice of SignedNoteMC.tla  *)
 (* realised on real bytes), mut (one byte of a real checkpoint changed),   *)
 (* signed (a checkpoint the real log signed: CreateLog or a sequencing     *)
@@ -34,17 +44,25 @@ IndAccept(f) == /\ f.text_ok /\ f.origin_ok /\ f.no_ext /\ f.present /\ f.len_ok
                 /\ f.no_trailing /\ f.hash_ok /\ f.sigalg_ok /\ f.sig_ok
 SameTuple(a, b) == a.origin = b.origin /\ a.size = b.size /\ a.root = b.root /\ a.ts = b.ts
 
-\* sunlight accepts only what the independent verifier accepts, for the same tuple
-Implies(r) == r.sun_ok => IndAccept(r.ind) /\ SameTuple(r.sun_tuple, r.ind.tuple)
+\* sunlight accepts only what the independent verifier accepts, for the same
+\* tuple -- whatever the verifier value has verified before
+Implies(r) == \A k \in DOMAIN r.runs :
+                 r.runs[k].sun_ok => IndAccept(r.ind) /\ SameTuple(r.runs[k].sun_tuple, r.ind.tuple)
+\* a verifier that opened the genuine checkpoint opens it again after it was
+\* shown something else
+GenuineStillOpens(r) == \A k \in DOMAIN r.runs :
+                           r.runs[k].primed /\ r.runs[k].after_checked => r.runs[k].after_ok
 
 CaseChecks(r) ==
     LET exp == Expected(r.src, r.devs) IN
-    V("C11.Table", r.id, r.sun_ok # exp)
+    V("C11.Table", r.id, \E k \in DOMAIN r.runs : r.runs[k].sun_ok # exp)
     \cup V("C11.SunImpliesIndependent", r.id, ~Implies(r))
+    \cup V("C11.GenuineStillOpens", r.id, ~GenuineStillOpens(r))
     \* the binding itself: the bytes realise the case the model describes
     \cup V("HARNESS.Realisation", r.id, IndAccept(r.ind) # exp \/ (r.devs # <<>> /\ ~r.changed))
 
 MutChecks(r) == V("C11.SunImpliesIndependent", r.id, ~Implies(r))
+                \cup V("C11.GenuineStillOpens", r.id, ~GenuineStillOpens(r))
 
 SignedChecks(r) ==
     LET known == r.where # "published-only" IN
@@ -62,6 +80,7 @@ Checks(r) == CASE r.k = "case" -> CaseChecks(r)
                [] r.k = "signfail" -> {<<"C11.SignedOpens", r.id>>}
                [] r.k = "inject" -> V("C11.InjectedSignerStrict", r.id, r.ok # r.valid)
                [] r.k = "det" -> V("C11.Deterministic", r.id, r.same_inputs /\ r.a # r.b)
+               [] r.k = "nolog" -> {}            \* no log came to exist for this origin: nothing was signed, nothing to judge
                [] r.k = "harness_error" -> {<<"HARNESS.Error", r.id>>}   \* the binding could not run something
                [] OTHER -> {<<"unknown record kind", r.id>>}
 
